@@ -214,7 +214,7 @@ func clip(b []byte) []byte {
 }
 
 func TestPropSCT(t *testing.T) {
-	kit.Run(t, kit.Spec[SCTCase]{ID: "C16", Name: "sct", Gen: genSCTCase, Check: checkSCT, Quick: 2000, Thorough: 10000,
+	kit.Run(t, kit.Spec[SCTCase]{ID: "C16", Name: "sct", Gen: genSCTCase, Check: checkSCT, Quick: 1500, Thorough: 10000,
 		Rule:        "SCT values (version 0/other, extensions and signature of 0..65535 and 65536..2*65536+70 bytes, every hash/sig id, extreme timestamps) serialised by ct.SerializeSCT/SerializeSCTHere (nil, exact, longer, shorter buffers): error, or len==SerializedLength and DeserializeSCT gives the value back and bytes equal a harness-side RFC 6962 encoder; the reference encoding (+ tail) must decode to the model with ct.DeserializeSCT and x509/ct.DeserializeSCT consuming exactly the SCT. Non-trivial: a field at/over its maximum, non-V1 version or caller-supplied buffer; distinct by case hash",
 		Assumptions: []string{"SerializeSCTHere's doc comment is read as: a representable V1 SCT with a nil or sufficiently long buffer serialises without error"}})
 }
@@ -360,7 +360,7 @@ func checkDS(c DSCase, r *kit.R) {
 }
 
 func TestPropDS(t *testing.T) {
-	kit.Run(t, kit.Spec[DSCase]{ID: "C16", Name: "digitally-signed", Check: checkDS, Quick: 1500, Thorough: 8000,
+	kit.Run(t, kit.Spec[DSCase]{ID: "C16", Name: "digitally-signed", Check: checkDS, Quick: 1200, Thorough: 8000,
 		Gen: func(t *rapid.T) DSCase {
 			return DSCase{Hash: genHashID(t, "hash"), Alg: genSigAlg(t, "alg"), Sig: vec16Blob(t, "sig"), Tail: smallBlob(t, "tail", 40)}
 		},
@@ -489,7 +489,7 @@ func checkLeaf(c LeafCase, r *kit.R) {
 }
 
 func TestPropLeaf(t *testing.T) {
-	kit.Run(t, kit.Spec[LeafCase]{ID: "C16", Name: "leaf", Gen: genLeafCase, Check: checkLeaf, Quick: 2000, Thorough: 10000,
+	kit.Run(t, kit.Spec[LeafCase]{ID: "C16", Name: "leaf", Gen: genLeafCase, Check: checkLeaf, Quick: 1500, Thorough: 10000,
 		Rule: "MerkleTreeLeaf / TimestampedEntry models (x509, precert, unknown entry types; unknown versions/leaf types; certificate 0, 1, .. 2^24-1 and over; extensions up to 65535 and over) written by a harness-side RFC 6962 s3.4 encoder, + random tail, read by ReadMerkleTreeLeaf / ReadTimestampedEntryInto: an RFC-conforming leaf must decode, any accepted leaf must equal the model and consume exactly its encoding. Non-trivial: precert entry, or empty/>=64 KiB certificate, or extensions >= 65534; distinct by case hash"})
 }
 
@@ -588,6 +588,6 @@ func checkChain(c ChainCase, r *kit.R) {
 }
 
 func TestPropChain(t *testing.T) {
-	kit.Run(t, kit.Spec[ChainCase]{ID: "C16", Name: "chain", Gen: genChainCase, Check: checkChain, Quick: 2000, Thorough: 10000,
+	kit.Run(t, kit.Spec[ChainCase]{ID: "C16", Name: "chain", Gen: genChainCase, Check: checkChain, Quick: 1500, Thorough: 10000,
 		Rule: "certificate chains of 0..4 certificates (empty, 1-byte, 64 KiB-boundary lengths; list length up to the 2^24-1 boundary) and precert chains written by a harness-side RFC 6962 s3.1 encoder and read by UnmarshalX509ChainArray / UnmarshalPrecertChainArray: conforming chains must decode, decoded lists must equal the model element by element. Non-trivial: >= 2 certificates, an empty certificate or a list >= 64 KiB; distinct by case hash"})
 }
